@@ -108,6 +108,23 @@ theorem options_write_their_named_setting :
       (spec p.1).writes.all (fun w => (w.mode == .append) == additiveOptions.contains p.1)) = true := by
   decide +kernel
 
+/-- the flag options assign the constant their name says -/
+theorem flag_options_write_their_constant :
+    ((spec .WithAuthBypass).writes.map (·.src) == [.const tokTrue]) &&
+    ((spec .WithAuthNoStrictKey).writes.map (·.src) == [.const [102,97,108,115,101]]) &&
+    ((spec .WithNetconfExcludeHeader).writes.map (·.src) == [.const tokTrue]) &&
+    ((spec .WithNetconfForceSelfClosingTags).writes.map (·.src) == [.const tokTrue]) = true := by
+  decide +kernel
+
+/-- the documented values of the validated options are accepted: transport types system / standard
+/ telnet (and file), NETCONF versions 1.0 / 1.1, log levels info / debug / critical -/
+theorem documented_values_are_valid :
+    ((spec .WithTransportType).valid == some [Gen.Transport.SystemTransport, Gen.Transport.StandardTransport,
+        Gen.Transport.TelnetTransport, Gen.Transport.FileTransport]) &&
+    ((spec .WithNetconfPreferredVersion).valid == some [[49,46,48], [49,46,49]]) &&
+    ((spec .logging_WithLevel).valid == some [[105,110,102,111], [100,101,98,117,103], [99,114,105,116,105,99,97,108]]) = true := by
+  decide +kernel
+
 /-- options that take a value write that value (not something else) -/
 theorem value_options_write_their_argument :
     allOpts.all (fun o => (spec o).writes.all fun w =>
